@@ -19,28 +19,27 @@ META = {
                  "implementation traces; end-to-end runs of the whole Server (public API, real time) in the thorough tier",
     "level_text": "Worker level (all states / all scripts): C06_forced, C06_idle, C06_dropped, C06_graceful_enter/_before_tick/_tick_idle/"
                   "_tick_timeout/_tick_wait, C06_ack_true_means_idle, C06_ack_false_cause, C06_done_cause, C06_drain, "
-                  "C06_total_outside_gap, C06_total_wrap_checked/_release. Server level (all scripts): C06_signal_map, "
+                  "C06_total_exact, C06_dec_no_underflow. Server level (all scripts): C06_signal_map, "
                   "C06_join_all_results/_polls/_ready, C06_server_order, C06_server_graceful_waits, C06_server_joined_accept, "
                   "C06_stops_resolve, C06_stop_after_done, C06_server_completes. All closed under the global context.",
     "level_note": "PARTIAL: thread orchestration (arbiter/runtime teardown closing in-flight connections after the worker future "
                   "resolved, thread::join of the accept thread) and OS signal delivery are runtime behaviour, observed only by the "
                   "end-to-end runs. 'No dispatch after Stop was processed' is proved in the accept-loop model (C01-C05 group). "
-                  "Recorded witness C06_accept_exit_first_witness: a worker whose accept-side handle is dropped before it picked up "
-                  "the stop resolves without acknowledgement while connections are in progress (narrow race in handle_cmd(Stop), "
-                  "see notes/worker.md).",
+                  "Two genuine defects found by this property's end-to-end runs were repaired (known_findings.txt, fixed: D6 false idle "
+                  "in the send/inc gap, D7 worker resolving when the accept thread exits before its stop arrived); the model is the "
+                  "repaired code, the failing histories are in corpus/C06.",
     "rule": "stream wrk06: 0..3 connections in progress x every completion time on a 500 ms grid (or never) x shutdown_timeout in "
             "{0,..,3000} x graceful/forced, +0..1 queued and +0..1 late connection, polls at every tick and in between (quick: a "
             "random half of the 2..3-connection combinations); hand-picked shapes (stop twice, stop racing pushes, the send/inc "
             "gap, stop while unavailable/restarting, accept side closing, timeout boundaries); seeded random stop histories. "
             "non-trivial = the model trace contains a stop acknowledgement or a lost sender. "
-            "stream wrk06wrap: gap-heavy cases against a second harness build without overflow checks (C06_total_wrap). "
             "stream join: all completion orders of 1..4 inputs over <= 4 polls with Ok(true)/Ok(false)/Err results against the "
             "real join_all (exhaustive for n <= 3).",
     "trusted_base": ["cfg(actix_net_verif) hooks verif_inthread (in-thread ServerWorker constructor; join_all wrapper)",
                      "Tokio paused clock: sleep fires iff deadline <= now (ms), Instant follows advance() exactly",
                      "SrvStop.v is tied to server.rs by reading and by the end-to-end scenarios only (handle_cmd is private)"],
     "assumptions": ["the Server future is polled and worker threads run (fairness of the runtimes)",
-                    "a stop arrives outside the accept side's send/inc gap unless the case says otherwise (C06_total_wrap)"],
+                    "stops may arrive inside the accept side's send/inc gap (cases without 'i'): total() is exact since the repair of D6"],
 }
 
 
@@ -58,6 +57,7 @@ def c06_property(case, impl):
     t = 0
     gap = False
     is_open = True
+    stop_open = True
     stops = []          # [graceful, t_push, resolved, picked]
     queue = []          # sids pushed, not yet picked up
     pushed = []         # cids pushed while the accept side was open
@@ -85,9 +85,12 @@ def c06_property(case, impl):
         elif op == "x":
             gap = False
             is_open = False
+        elif op == "y":
+            stop_open = False
         elif op in ("sg", "sf"):
-            stops.append([op == "sg", t, False, False])
-            queue.append(len(stops) - 1)
+            if stop_open:
+                stops.append([op == "sg", t, False, False])
+                queue.append(len(stops) - 1)
         elif op[0] == "a":
             t += int(op[1:])
         elif op == "p":
@@ -106,9 +109,9 @@ def c06_property(case, impl):
                 released.add(int(e[1:]))
             elif e[0] == "R":
                 return "peer did not observe the close"
-        # (a) ack true => nothing in progress (at most the one connection of the send/inc gap)
+        # (a) ack true => nothing in progress (exactly: also inside the accept side's send/inc gap)
         for sid, b in acks.items():
-            if b is True and len(inprog_before) > (1 if gap else 0):
+            if b is True and inprog_before:
                 return "stop %d acknowledged true with %d connections in progress" % (sid, len(inprog_before))
             if b is False:
                 graceful, tp = stops[sid][0], stops[sid][1]
@@ -117,11 +120,11 @@ def c06_property(case, impl):
         # (c) forced / idle: completes in the poll that picks it up, without waiting
         if head is not None and not panicked:
             graceful = stops[head][0]
-            if not graceful or (not inprog_before and not gap and not queued_before):
+            if not graceful or not inprog_before:
                 if not (head in acks and acks[head] is not None and done):
                     return "%s stop %d did not complete in the poll that picked it up" % ("graceful idle" if graceful else "forced", head)
-        if head is not None and panicked and not gap:
-            return "panic while handling a stop outside the send/inc gap"
+        if head is not None and panicked:
+            return "panic while handling a stop"
         if head is not None:
             picked_any = True
             if stops[head][0] and not done:
@@ -140,8 +143,8 @@ def c06_property(case, impl):
             left = [c for c in pushed if c not in called and c not in released]
             if left:
                 return "worker resolved with connection %d neither called nor released" % left[0]
-            if not acks and is_open:
-                return "worker resolved without acknowledgement while the accept side is alive"
+            if not acks and (is_open or stop_open):
+                return "worker resolved without acknowledgement although a stop command can still arrive"
     return ""
 
 
@@ -219,16 +222,6 @@ def join_monitor(case, impl, model):
     return True
 
 
-def build_relwrap(ctx):
-    """second build of the harness: plain release arithmetic (no overflow checks, no debug assertions)"""
-    target = os.path.dirname(os.path.dirname(ctx.impl_bin))
-    crate = os.path.join(os.path.dirname(target), "h_worker")
-    rc, out = common.sh(["cargo", "build", "--profile", "relwrap", "--offline"], cwd=crate, timeout=1500)
-    if rc != 0:
-        raise common.BuildError("cargo build --profile relwrap of h_worker failed:\n" + out[-3000:])
-    return os.path.join(target, "relwrap", "h_worker")
-
-
 def streams(ctx):
     full = ctx.tier != "quick"
     enum = g.c06_enum(ctx.rng, full)
@@ -239,18 +232,6 @@ def streams(ctx):
                 describe="special: %d, completion-time x timeout grid: %d, random: %d" % (len(special), len(enum), len(rnd)),
                 timeout=900)
     out = [st]
-    try:
-        wrapbin = build_relwrap(ctx)
-        gapc = special + [c for c in g.c06_random(ctx.rng, 3000 if not full else 40000)]
-        # drop most accept-side incs: the gap is the point of this stream
-        gapc = [c.split(";")[0] + ";" + " ".join(t for t in c.split(";")[1].split(" ") if t != "i" or ctx.rng.random() < 0.3)
-                for c in gapc]
-        out.append(Stream("wrk06wrap", "wrk", gapc, monitor=monitor, nontrivial=lambda c, m: "A" in g.main_part(m) or "X" in g.main_part(m),
-                          shrink=g.shrink_case, compare=compare, finding_key=finding_key,
-                          impl_cmd=[wrapbin, "wrk"], model_cmd=[ctx.model_bin, "wrkwrap"],
-                          describe="%d gap-heavy cases against a build without overflow checks (c_ovf = false)" % len(gapc), timeout=900))
-    except common.BuildError as e:
-        ctx.report("build-broken", {"what": "correspondence C06/wrk06wrap cannot be run: %s" % str(e)[-2000:]}, nfi=True)
     jc = join_cases(ctx.rng, full)
     out.append(Stream("join", "join", jc, monitor=join_monitor, nontrivial=lambda c, m: "=" in m and int(c.split(";")[0]) >= 2,
                       shrink=None, describe="%d join_all histories (n <= 3 inputs exhaustive over completion polls; random n <= 6)" % len(jc),
